@@ -188,8 +188,9 @@ def generate(cls, rng):
                  q=rng.choice([0.05, 0.15, 0.4]), p=rng.choice([0.0, 0.02]))])
         return dict(init=init, threads=threads,
                     sched=dict(strategy=strat, seed=rng.getrandbits(32)))
+    from dsim import depth as DP
     ops = []
-    for _ in range(rng.randrange(6, 40)):
+    for _ in range(rng.randrange(6, DP.pick(40, 120))):
         r = rng.random()
         if r < 0.10:
             ops.append(["set_tz", rng.randrange(len(TZ_SETTINGS))])
